@@ -239,6 +239,14 @@ Definition run_la_histories (arg : sx) : sx :=
   | None => sx_err
   end.
 
+(* fn 37: the same histories, the caller going on after every rejected call: accepted flags and final definition *)
+Definition run_la_histories_lenient (arg : sx) : sx :=
+  match as_list (as_list as_lacall) arg with
+  | Some hs => L (map (fun h => let r := la_run_lenient ceq [] h in
+                                L [of_list (fun b : bool => A (if b then 1 else 0)) (snd r); of_larch (fst r)]) hs)
+  | None => sx_err
+  end.
+
 Definition as_lrcall (s : sx) : option (@lrcall N) :=
   match s with
   | L [A 0; a] => option_map LRBasedOn (as_larch a)
